@@ -77,6 +77,7 @@ def run(rep: core.Report):
     # ---- R02c ------------------------------------------------------------
     fwd = core.find_def(PYDM, "DynamicalMatrix._run_py_dynamical_matrix")
     _r02k(rep)
+    _r02m(rep)
     core.require_names(fwd, ["phase", "vec", "q", "fc_elem", "phase_factor", "sqrt_mm", "m", "k", "dm_local", "mass", "i", "j", "s_i", "s_j", "is_compact_fc", "svecs_at", "svecs", "multi", "adrs", "ll", "fc", "dm"], f"{PYDM}::_run_py_dynamical_matrix")
     defs = {core.src(st.targets[0]): st.value for st in ast.walk(fwd) if isinstance(st, ast.Assign) and isinstance(st.targets[0], ast.Name)}
     loops_py = [lp_ for lp_ in ast.walk(fwd) if isinstance(lp_, ast.For)]
@@ -234,6 +235,74 @@ _ATTR = {"p2s_map": ("P", "R"), "s2p_map": ("S", "R"), "p2p_map": ("R", "P")}
 _SUB = {("R", "S"), ("P", "P"), ("S", "S"), ("R", "R")}  # value set -> admissible index set
 
 
+def _r02m(rep):
+    """Positions handed to the shortest-vector search are wrapped in the basis the search works in."""
+    rep.rule("R02m", "ShortestPairs: the supercell and primitive positions that the image search receives are wrapped to [-1/2, 1/2] (x - rint(x)) AFTER the change to the reduced basis (a small dataflow over 'wrapped / not wrapped': a product with the change-of-basis matrix unwraps; array copies keep the state; helpers are followed); wrapped before the change of basis the coordinates can reach +-1.5 in a reduced coordinate and the fixed set of 65 neighbouring images no longer contains the nearest one", 2)
+    cls = core.find_def("phonopy/structure/cells.py", "ShortestPairs")
+    methods = {m.name: m for m in cls.body if isinstance(m, ast.FunctionDef)}
+    fn = methods.get("_transform_cell_basis")
+    if fn is None:
+        raise AnalysisError("anchor vanished: ShortestPairs._transform_cell_basis")
+    COPY = {"np.array", "np.asarray", "np.ascontiguousarray", "np.copy"}
+
+    def run_fn(f, binding, depth=0):
+        env = dict(binding)
+
+        def st_of(e):
+            if isinstance(e, ast.Name):
+                return env.get(e.id, "N")
+            if isinstance(e, ast.Call):
+                fs = core.src(e.func)
+                if fs in COPY and e.args:
+                    return st_of(e.args[0])
+                if isinstance(e.func, ast.Attribute) and e.func.attr in ("copy", "astype") and not fs.startswith("np."):
+                    return st_of(e.func.value)
+                if fs in ("np.dot", "np.matmul"):
+                    return "N"
+                name = e.func.attr if isinstance(e.func, ast.Attribute) and core.src(e.func.value) in ("self", "ShortestPairs") else None
+                if name in methods and depth < 3:
+                    callee = methods[name]
+                    ps = [a.arg for a in callee.args.args if a.arg != "self"]
+                    return run_fn(callee, {p_: st_of(a) for p_, a in zip(ps, e.args)}, depth + 1)
+                return "N"
+            if isinstance(e, ast.BinOp) and isinstance(e.op, ast.Sub) and isinstance(e.right, ast.Call) and core.src(e.right.func) in ("np.rint", "np.round", "np.around") and e.right.args and core.src(e.right.args[0]) == core.src(e.left):
+                return "W"
+            if isinstance(e, ast.BinOp) and isinstance(e.op, ast.MatMult):
+                return "N"
+            if isinstance(e, ast.Attribute) and core.src(e.value) == "self":
+                return "N"
+            return "N"
+
+        ret = None
+        for stt in ast.walk(f):
+            pass
+        for stt in sorted([x for x in ast.walk(f) if isinstance(x, (ast.Assign, ast.AugAssign, ast.Return))], key=lambda x: x.lineno):
+            if isinstance(stt, ast.Assign) and len(stt.targets) == 1 and isinstance(stt.targets[0], ast.Name):
+                env[stt.targets[0].id] = st_of(stt.value)
+            elif isinstance(stt, ast.AugAssign) and isinstance(stt.target, ast.Name):
+                if isinstance(stt.op, ast.Sub) and isinstance(stt.value, ast.Call) and core.src(stt.value.func) in ("np.rint", "np.round", "np.around") and stt.value.args and core.src(stt.value.args[0]) == stt.target.id:
+                    env[stt.target.id] = "W"
+                else:
+                    env[stt.target.id] = "N"
+            elif isinstance(stt, ast.Return) and stt.value is not None and core.enclosing_function(stt) is f:
+                ret = [st_of(x) for x in stt.value.elts] if isinstance(stt.value, ast.Tuple) else st_of(stt.value)
+        return ret
+
+    ret = run_fn(fn, {})
+    rets = [r.value for r in ast.walk(fn) if isinstance(r, ast.Return) and isinstance(r.value, ast.Tuple)]
+    if not isinstance(ret, list) or len(rets) != 1:
+        raise AnalysisError("R02m: _transform_cell_basis no longer returns its tuple of arrays")
+    names = [core.src(x) for x in rets[0].elts]
+    n = 0
+    for nm, stt in zip(names, ret):
+        if "frac" in nm or "pos" in nm:
+            n += 1
+            rep.instance("R02m", "phonopy/structure/cells.py", "ShortestPairs._transform_cell_basis", f"{nm}: wrapped to [-1/2, 1/2] in the reduced basis", stt == "W",
+                         f"'{nm}' reaches the image search without a final wrap in the reduced basis (the wrap is applied before the change of basis, or not at all): for supercell lattices whose reduced basis differs from the given one (acute rhombohedral cells) the pair differences leave the range covered by the 65 images, a longer periodic image is returned as the shortest vector, and D(q) has wrong phases at generic q", line=rets[0].lineno)
+    if n < 2:
+        raise AnalysisError("R02m: the supercell and primitive positions are no longer among what _transform_cell_basis returns")
+
+
 def _r02k(rep):
     """Consumers of the dense shortest-vector storage read exactly m vectors from the address of the pair."""
     rep.rule("R02k", "dense shortest-vector storage is (multiplicity m, address) per atom pair: a consumer takes the m vectors svecs[address : address + m] of a pair; a segmented reduction over the addresses alone (np.add.reduceat(x, addresses)) ends each segment at the NEXT address in the flattened order, which is the same only for storage packed without gaps in exactly that order -- not part of the format (sparse_to_dense_svecs may pad), and unused slots then enter the phase factor", 1)
@@ -277,6 +346,11 @@ def _maptype(e, env, rel, depth=0):
                 m = _maptype(a.args[0], env, rel, depth)
                 if m and m[0] != "val":
                     return (m[0], m[0])
+            return None
+        if f == "np.unique" and e.args and not e.keywords:
+            a = _maptype(e.args[0], env, rel, depth)
+            if a and a[0] != "val":
+                return (f"rank among the sorted values of a {a[0]}->{a[1]} map", a[1])
             return None
         if f == "np.searchsorted" and len(e.args) >= 2:
             a, v = _maptype(e.args[0], env, rel, depth), _maptype(e.args[1], env, rel, depth)
@@ -392,6 +466,7 @@ def selftest():
     V = []
     b = lambda name, file, old, new, rule, expect="", **kw: V.append(dict(name=name, kind="break", file=file, old=old, new=new, rule=rule, expect=expect, **kw))
     n = lambda name, file, old, new, **kw: V.append(dict(name=name, kind="neutral", file=file, old=old, new=new, **kw))
+    b("positions wrapped before the change to the reduced basis", "phonopy/structure/cells.py", "        supercell_fracs = np.dot(self._supercell_pos, trans_mat)\n        supercell_fracs -= np.rint(supercell_fracs)\n", "        supercell_fracs = np.dot(self._supercell_pos - np.rint(self._supercell_pos), trans_mat)\n", "R02m", "_transform_cell_basis")
     b("forward phase sign", DYN, "            phase += q[m] * svecs[adrs + l][m];", "            phase -= q[m] * svecs[adrs + l][m];", "R02a", "get_dm")
     b("pair addressing transposed", DYN, "    i_pair = k * num_patom + i;\n    m_pair = multi[i_pair][0];\n    adrs = multi[i_pair][1];\n\n    for (l = 0; l < m_pair; l++) {\n        phase = 0;", "    i_pair = i * num_patom + k;\n    m_pair = multi[i_pair][0];\n    adrs = multi[i_pair][1];\n\n    for (l = 0; l < m_pair; l++) {\n        phase = 0;", "R02a", "get_dm")
     b("image selection compares with i", DYN, "        if (s2p_map[k] != p2s_map[j]) {", "        if (s2p_map[k] != p2s_map[i]) {", "R02b", "get_dynmat_ij")
